@@ -99,8 +99,10 @@ PROPS = {
                     "GOMAXPROCS in {1,2,4,16}, random read segmentations (1 byte .. several frames), truncated last frame; lag stage: 600-800 frames of 128 KB with every write system call of the daemon "
                     "delayed 0.7 s by strace so that the 256-deep queue fills and drains (judged by the harness' own CPTR parser: files too large for Coq); non-trivial = at least 2 frames / backlog > 10 logged; distinct by (size, count, content seed)",
             "trusted_base": TB_COMMON + ["Go channels are FIFO and close() delivers buffered items first; bufio/os file writes; file names have one-second resolution (single connection per run)"]},
-    "C14": {"stages": [{"harness": "HEADER", "corr": "corr.C14h", "n": {"quick": 300, "thorough": 5000}, "shard": 40}],
-            "theorems": "props/C19.v", "rule": "x", "trusted_base": TB_COMMON},
+    "C14": {"stages": [{"harness": "HEADER", "corr": "corr.C14h", "n": {"quick": 300, "thorough": 5000}, "shard": 40},
+                       {"harness": "E2E", "corr": "corr.E2E14", "n": {"quick": 6, "thorough": 150}, "shard": 1},
+                       {"harness": "INBAND", "corr": "corr.E2E14", "n": {"quick": 1, "thorough": 1}, "shard": 1}],
+            "theorems": "props/C14.v", "rule": "x", "trusted_base": TB_COMMON},
     "C10": {"stages": [{"harness": "FILEREC", "corr": "corr.C10", "n": {"quick": 1, "thorough": 1}, "shard": 40}],
             "theorems": "props/C10.v",
             "level_text": "Coq theorems on a file life-cycle model (every prefix of every well-formed call sequence; recovery) - partial: the kernel's file-system behaviour is outside the theorem "
@@ -113,8 +115,47 @@ PROPS = {
             "trusted_base": TB_COMMON + ["strace 6.x inject=...:signal=KILL delivers the kill on entry of the selected system call; power-loss durability, partial write() calls and disk-full are not covered; "
                                          "distinct recordings get distinct millisecond time stamps (hypothesis wf_calls; the harness waits 2 ms between recordings)",
                                          "go-cptv's reader is the decoder: a file 'decodes' if every frame reads without error up to EOF and the count equals the header's NumFrames"]},
+    "C16": {"stages": [{"harness": "RACE", "corr": "corr.C16", "n": {"quick": 1, "thorough": 1}, "shard": 20}],
+            "theorems": "props/C16.v",
+            "level_text": "Coq theorem on an interleaving model (every schedule of the frame loop and a snapshot requester over ring + mutex: the copy is one whole frame) - partial; "
+                          "the data-race clause is a finite access table decided by vm_compute and tied to the code by the Go race detector (level 'other' for that clause): "
+                          "a reported race outside the table is a violation, the four in it are known findings.",
+            "rule": "the real handleConn fed 300 (thorough: 3000) uniform-valued frames per connection over a unix socket while 6-8 requester goroutines call TakeSnapshot / TakeTestRecording / CameraInfo "
+                    "(driver mode race): (1) ring capacity 11, two connections: snapshots must be uniform; (2) ring capacity 1 (known finding); (3) race-detector build, two connections: "
+                    "one case per racy variable reported; non-trivial = more than 100 snapshots taken / a race reported; distinct by case kind",
+            "trusted_base": TB_COMMON + ["Go memory model effects beyond sequential consistency and scheduler fairness are outside the model; the race detector finds only races that occur in the run; "
+                                         "race reports are classified into variables by the functions and source lines of the two top frames"]},
     "C11": {"stages": [{"harness": "E2E", "corr": "corr.E2E11", "n": {"quick": 8, "thorough": 200}, "shard": 1},
                        {"harness": "CODEC", "corr": "corr.C11codec", "n": {"quick": 300, "thorough": 10000}, "shard": 50},
                        {"harness": "CPTVHDR", "corr": "corr.C11hdr", "n": {"quick": 150, "thorough": 3000}, "shard": 30}],
-            "theorems": "props/C19.v", "rule": "x", "trusted_base": TB_COMMON},
+            "theorems": "props/C11.v",
+            "level_text": "Coq theorems for the field/section layer, the header view, the frame fields and the pixel codec (lossless for all 16-bit frames) - partial: gzip and TOML/YAML decoding are "
+                          "not modelled; tied by byte-exact comparison with the real go-cptv writer/compressor and by end-to-end sessions through the real daemon code.",
+            "rule": "end-to-end sessions: generated config.toml (min/max/preview secs or defaults, trigger frames, throttle off / transparent / impossible, constant recorder, window none / closed, min-disk-space 0 / huge, device id/name, location, 11 motion keys each written or left to the camera-model default for lepton3 / lepton3.5 / boson), camera header encoded as the camera daemon does, 60-180 frames (8x6..16x12, a flickering hot blob that appears/moves/disappears, FFC events, bad frames, 'clear' markers, extreme values) sent in random chunk sizes over a unix socket to the real ParseConfig + handleConn (driver binary), every finished .cptv decoded with the standard reader and compared with model/System.v: per file threshold, background, frame ids; frame contents (pixels, times, temperatures) and header view compared by the harness || codec stage: frame sequences 1x1..7x6 (constant, identical-to-previous, 0/65535 alternation, random) through the real Compressor: bit width and bytes compared, "
+                    "the model's decompressor applied to the implementation's bytes || header stage: real Writer header / frame fields (gunzipped) for strings of 0..300 bytes, ids/serials at cast boundaries, "
+                    "signed zeros, durations around 2^32 ms; non-trivial = files produced / more than one frame / header written; distinct by input",
+            "trusted_base": TB_COMMON + ["gzip (compress/gzip), viper/toml/mapstructure, yaml.v2 trusted; the expected effective configuration (defaults per camera model) is the harness' own table; "
+                                         "file names have millisecond resolution: the harness paces frames (SIOCOUTQ) so that recordings get distinct names"]},
+    "C14": {"stages": [{"harness": "HEADER", "corr": "corr.C14h", "n": {"quick": 300, "thorough": 5000}, "shard": 40},
+                       {"harness": "E2E", "corr": "corr.E2E14", "n": {"quick": 6, "thorough": 150}, "shard": 1},
+                       {"harness": "INBAND", "corr": "corr.E2E14", "n": {"quick": 1, "thorough": 1}, "shard": 1}],
+            "theorems": "props/C14.v",
+            "level_text": "Coq theorems on a reader model over chunked byte streams (chunking irrelevant, round trip, truncation errors) + static agreement of both daemons' constants from the Go AST - partial: "
+                          "the YAML codec enters as validated hypotheses; tied by the real ReadHeaderInfo on arbitrary segmentations and by end-to-end sessions through the real handleConn.",
+            "rule": "header stage: camera descriptions with YAML-hostile strings (1.2, true, ~, leading/trailing spaces, '#', ': ', unicode, empty) encoded by yaml.v1 Marshal of the map exactly as cmd/leptond does, read by the real "
+                    "ReadHeaderInfo from a reader returning arbitrary chunk sizes (1 byte .. 4096), with trailing data, plus EVERY truncation point || stream stage: end-to-end sessions: generated config.toml (min/max/preview secs or defaults, trigger frames, throttle off / transparent / impossible, constant recorder, window none / closed, min-disk-space 0 / huge, device id/name, location, 11 motion keys each written or left to the camera-model default for lepton3 / lepton3.5 / boson), camera header encoded as the camera daemon does, 60-180 frames (8x6..16x12, a flickering hot blob that appears/moves/disappears, FFC events, bad frames, 'clear' markers, extreme values) sent in random chunk sizes over a unix socket to the real ParseConfig + handleConn (driver binary), every finished .cptv decoded with the standard reader and compared with model/System.v: per file threshold, background, frame ids; frame contents (pixels, times, temperatures) and header view compared by the harness (compared projection: frame ids per file) || "
+                    "one probe of the known in-band-marker finding; non-trivial = split into more than one read / files produced; distinct by description + chunking",
+            "trusted_base": TB_COMMON + ["yaml.v1 Marshal/Unmarshal: assumed decode(encode d) = d and encoder output ends with newline and has no blank line (header_text_ok evaluated on every generated header); bufio/io.ReadFull semantics = byte stream"]},
+    "C15": {"stages": [{"harness": "DET15", "corr": "corr.C15", "n": {"quick": 200, "thorough": 4000}, "shard": 20},
+                       {"harness": "E2E", "corr": "corr.E2E15", "n": {"quick": 6, "thorough": 150}, "shard": 1}],
+            "theorems": "props/C15.v",
+            "rule": (DET_RULE % "dynamic threshold with all four unset/set combinations of temp-thresh-min/max, scene mean below/inside/above the range, slow warming, preview 0-3 frames; background (all pixels), weights (checksum of float32 bit patterns), threshold and backgroundFrames compared after every frame; spec S15") +
+                    " || start-arguments clause: end-to-end sessions: generated config.toml (min/max/preview secs or defaults, trigger frames, throttle off / transparent / impossible, constant recorder, window none / closed, min-disk-space 0 / huge, device id/name, location, 11 motion keys each written or left to the camera-model default for lepton3 / lepton3.5 / boson), camera header encoded as the camera daemon does, 60-180 frames (8x6..16x12, a flickering hot blob that appears/moves/disappears, FFC events, bad frames, 'clear' markers, extreme values) sent in random chunk sizes over a unix socket to the real ParseConfig + handleConn (driver binary), every finished .cptv decoded with the standard reader and compared with model/System.v: per file threshold, background, frame ids; frame contents (pixels, times, temperatures) and header view compared by the harness (compared projection: threshold and background stored with each recording = the model detector's values after the trigger frame)",
+            "trusted_base": DET_TB + ["theorem C15_background_and_threshold depends on the standard library's classical real-number axioms through Flocq (named in Print Assumptions); C15_partial is the axiom-free form with the four IEEE-754 facts as hypotheses"]},
+    "C17": {"stages": [{"harness": "PROC", "corr": "corr.C17", "n": {"quick": 220, "thorough": 4000}, "shard": 20},
+                       {"harness": "E2E", "corr": "corr.E2E17", "n": {"quick": 6, "thorough": 150}, "shard": 1}],
+            "theorems": "props/C17.v",
+            "rule": (PROC_RULE % "fault-free continuous and test sinks, motion-sink refusals; compared projection: continuous and test sinks; spec S17c && S17t") +
+                    " || wiring: end-to-end sessions: generated config.toml (min/max/preview secs or defaults, trigger frames, throttle off / transparent / impossible, constant recorder, window none / closed, min-disk-space 0 / huge, device id/name, location, 11 motion keys each written or left to the camera-model default for lepton3 / lepton3.5 / boson), camera header encoded as the camera daemon does, 60-180 frames (8x6..16x12, a flickering hot blob that appears/moves/disappears, FFC events, bad frames, 'clear' markers, extreme values) sent in random chunk sizes over a unix socket to the real ParseConfig + handleConn (driver binary), every finished .cptv decoded with the standard reader and compared with model/System.v: per file threshold, background, frame ids; frame contents (pixels, times, temperatures) and header view compared by the harness (compared projection: frame ids of the files in constant-recordings/, with throttling / window / disk refusals active on the motion recorder)",
+            "trusted_base": PROC_TB},
 }
